@@ -159,7 +159,7 @@ class C17(Prop):
     lean_exe = "c17_driver"
     harness = "h_gencode.c"
     theorems = ["EaselModel.Props.C17." + t for t in (
-        "tables_pinned", "table_ids", "no_initiator_stop", "read_write_roundtrip", "expand_is_iupac", "translation_spec", "translation_shared",
+        "tables_pinned", "table_ids", "no_initiator_stop", "read_write_roundtrip", "rna_objects_ok", "expand_is_iupac", "translation_spec", "translation_shared",
         "initiator_spec", "initiator_settings", "window_split_invariant", "orf_stream_eq_spec", "orf_frame_declarative", "orf_numbering_and_order", "builtin_tables_ok")]
     claimed = True
     technique = ("Lean 4 proof: built-in tables regenerated from the tree = hand-pinned NCBI tables by `decide`; general theorems (any table, any "
@@ -207,6 +207,8 @@ class C17(Prop):
             for init in ("table", "any", "aug"):
                 ops += ["table id=%d init=%s" % (tid, init), "triplets id=%d init=%s" % (tid, init)]
             ops += ["write id=%d init=table comment=1" % tid, "write id=%d init=any comment=0" % tid]
+            ops += ["triplets id=%d init=%s nt=rna" % (tid, init) for init in ("table", "any", "aug")]
+            ops += ["write id=%d init=aug comment=1 nt=rna" % tid, "readwrite id=%d init=table comment=0 nt=rna" % tid]
             ops += ["readwrite id=%d init=%s comment=%d" % (tid, init, cm) for init in ("table", "any", "aug") for cm in (0, 1)]
             out.append({"name": "table%d" % tid, "ops": ops, "sticky": 0})
         def orf(dna, **kw):
@@ -322,13 +324,15 @@ class C17(Prop):
                 init, using = rng.choice([("any", 0), ("any", 0), ("table", 1), ("aug", 2), ("table", 0), ("aug", 0), ("any", 1)])
                 minlen = rng.choice([0, 0, 1, 2, 3, 5, 10, 20, 50])
                 strand = rng.choice(["b", "b", "w", "c"])
-                ops.append("orfs id=%d init=%s using=%d minlen=%d strand=%s dna=%s cuts=%s" % (
-                    tid, init, using, minlen, strand, dna.encode().hex() or "-", self.rand_cuts(rng, L)))
+                ntsel = " nt=rna" if rng.random() < 0.2 else ""
+                if ntsel and rng.random() < 0.7: dna = dna.replace("T", "U").replace("t", "u")
+                ops.append("orfs id=%d init=%s using=%d minlen=%d strand=%s dna=%s cuts=%s%s" % (
+                    tid, init, using, minlen, strand, dna.encode().hex() or "-", self.rand_cuts(rng, L), ntsel))
                 if rng.random() < 0.3:      # same sequence, another split: the ORF list must be identical
                     ops.append("orfs id=%d init=%s using=%d minlen=%d strand=%s dna=%s cuts=%s" % (
                         tid, init, using, minlen, strand, dna.encode().hex() or "-", self.rand_cuts(rng, L)))
             if rng.random() < 0.35:
-                ops.append("read hex=%s" % self.rand_ncbi_text(rng, tid).hex())
+                ops.append("read hex=%s%s" % (self.rand_ncbi_text(rng, tid).hex(), " nt=rna" if rng.random() < 0.2 else ""))
             if rng.random() < 0.2:
                 ops.append("codon id=%d init=%s a=%d b=%d c=%d" % (tid, rng.choice(["table", "any", "aug"]), rng.randrange(18), rng.randrange(18), rng.randrange(18)))
             out.append({"name": "gen%d" % i, "ops": ops, "sticky": 0})
